@@ -281,6 +281,29 @@ func (cc *completeCtx) covers(v ssa.Value, fn *ssa.Function) (bool, string) {
 		return cc.coversPhi(t, fn)
 	case *ssa.Call:
 		name := calleeName(t)
+		if h := t.Call.StaticCallee(); h != nil && len(h.Blocks) > 0 && h.Origin() == nil && cc.x.P.InModule(h) && h.Signature.Results().Len() == 1 {
+			// a helper of the module that returns the list: every value it returns must hold every key
+			for i, p := range h.Params {
+				if _, bound := cc.param[p]; !bound && i < len(t.Call.Args) {
+					cc.param[p] = t.Call.Args[i]
+					cc.parent[h] = fn
+				}
+			}
+			n := 0
+			for _, b := range h.Blocks {
+				for _, in := range b.Instrs {
+					if r, ok := in.(*ssa.Return); ok && len(r.Results) == 1 {
+						n++
+						if ok, why := cc.covers(r.Results[0], h); !ok {
+							return false, why
+						}
+					}
+				}
+			}
+			if n > 0 {
+				return true, ""
+			}
+		}
 		switch {
 		case strings.HasPrefix(name, "slices.Clone"):
 			return cc.covers(t.Call.Args[0], fn)
